@@ -193,14 +193,22 @@ def check(ctx):
     api_cells = [("tri1", (2, 1, 1)), ("tri2_P1", (2, 1, 1)), ("hcp", (1, 1, 1)), ("tri1", (3, 1, 1)), ("tri2_obtuse", (2, 1, 1)), ("sheared", (2, 1, 1)), ("mono_P", (2, 1, 1))]
     if not ctx.quick:
         api_cells += [("mono_P", (2, 1, 1)), ("tri1", (2, 2, 1)), ("sheared", (2, 1, 1)), ("needle", (1, 1, 2)), ("ortho_C", (1, 1, 2)), ("flat", (1, 1, 1))]
-    for cname, diag in api_cells:
-        sc = make_supercell(base_cells()[cname], diag, rng=rng, shuffle=True)
+    # small cells with INEQUIVALENT atoms, every shell boundary, natural and shuffled atom order (R14-K3: an order-4 shortcut for an
+    # atom that has the whole cell inside its cutoff sphere while another pair is out of range; it needs that atom to carry the
+    # largest index of the quadruple)
+    from gens import _cell
+    pool = dict(base_cells())
+    pool["perovskite"] = _cell("perovskite", np.eye(3) * 4.0, [[0, 0, 0], [0.5, 0.5, 0.5], [0.5, 0.5, 0], [0.5, 0, 0.5], [0, 0.5, 0.5]], [56, 22, 8, 8, 8])
+    api_cells = [(c, d, True, False) for c, d in api_cells]
+    api_cells += [("perovskite", (1, 1, 1), False, True), ("perovskite", (1, 1, 1), True, True), ("guest", (1, 1, 1), False, True), ("p3_general", (1, 1, 1), True, True)]
+    for cname, diag, shuf, all_bounds in api_cells:
+        sc = make_supercell(pool[cname], diag, rng=rng, shuffle=shuf)
         N = len(sc["numbers"])
         at = atoms_of(sc)
         dist = min_image_distances(np.asarray(sc["lattice"], float), np.asarray(sc["positions"], float))
         shells = sorted(set(np.round(dist[dist > 1e-8], 6).tolist()))
         bounds = [(a + b) / 2 for a, b in zip(shells[:-1], shells[1:])] + [shells[-1] + 0.37]
-        if ctx.quick and len(bounds) > 4:
+        if ctx.quick and len(bounds) > 4 and not all_bounds:
             bounds = bounds[:2] + [bounds[len(bounds) // 2]] + bounds[-3:]     # the last gaps below the largest distance and one beyond it
         # close to the shells too (a radius just below / just above a shell is as valid as the mid-point): the two widest gaps
         gaps = sorted(zip(shells[:-1], shells[1:]), key=lambda g: g[0] - g[1])[:2]
@@ -210,7 +218,7 @@ def check(ctx):
         # radii shared by all cells (two structures with the same atom count then meet the same numeric cutoff)
         bounds += [c for c in (3.05, 3.45, 4.05) if all(abs(c - sh) > 2e-2 for sh in shells)]
         bounds = sorted(set(bounds))
-        for order in (2, 3, 4):
+        for order in ((3, 4) if all_bounds else (2, 3, 4)):
             if N ** order * 3 ** order > 300000:
                 continue
             full = Symfc(at).compute_basis_set(orders=[order]).basis_set[order]
